@@ -95,19 +95,30 @@ Definition mon_shape (c : scase) : bool :=
 Definition mon_req_iff_pp (c : scase) : bool :=
   forallb (fun n => Bool.eqb (on_req n) (status_eqb (on_st n) PreProcessed)) (s_nodes c).
 
-(* 3: a seed that preprocess turned Failed or Completed leaves no request anywhere in its tree;
-   a seed that was itself at the working depth ends PreProcessed (request), Seen, Failed or
-   Completed *)
+(* 3: a seed that is itself at the working depth (the whole tree) stays childless and ends
+   PreProcessed (request), Seen, Failed or Completed; when the implementation's own strings say
+   it is out of scope (or it was not parsed) it ends Failed or Completed, and nothing in the tree
+   carries a request unless the seed is PreProcessed *)
 Definition mon_rejected_seed (c : scase) : bool :=
-  let st := st_of (s_out c) in
-  let none := forallb (fun n => negb (on_req n)) (s_nodes c) in
-  (if (status_eqb st Failed || status_eqb st Completed) && negb (status_eqb st (st_of (s_in c))) then none else true)
-  && match s_in c with
-     | Node i [] => if status_eqb (nst i) Fresh
-                    then status_eqb st PreProcessed || status_eqb st Failed || status_eqb st Completed || status_eqb st Seen
-                    else true
-     | _ => true
-     end.
+  match s_in c with
+  | Node i [] =>
+    if status_eqb (nst i) Fresh then
+      match s_out c with
+      | Node j [] =>
+        let st := nst j in
+        (status_eqb st PreProcessed || status_eqb st Failed || status_eqb st Completed || status_eqb st Seen)
+        && forallb (fun n => implb (on_req n) (status_eqb st PreProcessed)) (s_nodes c)
+        && match s_nodes c with
+           | n :: _ =>
+             if uv_in_scope c (on_item n) && uv_shape_ok (on_item n) then true
+             else status_eqb st Failed || status_eqb st Completed
+           | [] => false
+           end
+      | _ => false
+      end
+    else true
+  | _ => true
+  end.
 
 Definition mons (l : list scase) :=
   mon_idx [mon_in_scope; mon_shape; mon_req_iff_pp; mon_rejected_seed] l.
